@@ -7,7 +7,6 @@ namespace Drv
 abbrev Label := Lb.Label
 abbrev Hex := Hx.Hex
 
-instance : Inhabited Hex := ⟨.inline (List.replicate 8 0) 0⟩
 instance : Inhabited Label := ⟨.alpha 0⟩
 
 abbrev G := Sodg.G Label Hex
